@@ -1042,6 +1042,14 @@ func evalB(r *vf.Run, in input, res result) {
 				r.Violation("wrong-password-accepted", attrs, wit())
 				return
 			}
+			if in.base != nil && bytes.Equal(in.pw, in.base.pw) {
+				if want := sha256.Sum256(in.base.plain); res.sum == hex.EncodeToString(want[:]) {
+					// a damaged ciphertext that still yields the original plaintext: "the plaintext
+					// or an error" holds; recorded, not a violation
+					r.Count("B.observed.modified_ciphertext_gave_original_plaintext", 1)
+					return
+				}
+			}
 			r.Violation("decrypt-accepted-unauthentic-input", attrs, wit())
 			return
 		}
